@@ -1,5 +1,7 @@
 import NunavutVerif.Lemmas.Html
+import NunavutVerif.Lemmas.HtmlPage
 import NunavutVerif.Gen.HtmlTpl
+import NunavutVerif.Gen.HtmlRefs
 /-!
 # C20 — generated HTML documentation is well-formed, escaped and internally linked
 
@@ -203,6 +205,163 @@ that have an entry of their own (guard `t.short_name != "_"`); the link prefix p
 theorem C20_href_forms_recognised :
     (∀ h ∈ HtmlTpl.hrefs, hrefFormOk h.2.1 h.2.2 = true) ∧ (∀ b ∈ HtmlTpl.bindings, upBindingOk b = true) := by decide
 
+
+/-! ## 5. The reference inventory: every anchor, every reference, every link of a generation run
+
+`Model/HtmlPage.lean` computes, from the namespace tree of a run, every `id` and every reference (`href`, `data-target`,
+`onclick`, `aria-controls`, `for`, the id selector of the inline script) of every page in document order; the tie compares
+that list with the attributes a strict parser finds on the real pages, item by item. -/
+
+/-- The model implements the whole inventory: the table of all anchor / reference / URL / event-handler attributes that the
+translator finds in the templates equals the forms `nsPageItems` / `typePageItems` are written from; so do the page-dependent
+DOM lookups of the templates' own scripts and the signature (default root) of `toggleCollapse`.  (`decide`, whole tables.) -/
+theorem C20_reference_inventory_is_modelled :
+    HtmlRefs.refs = expectedRefs ∧
+    HtmlRefs.jsLookups.filter JsLookup.dynamic = expectedDynamicLookups ∧
+    ("namespace_base.js", "toggleCollapse", expectedToggleSignature) ∈ HtmlRefs.jsFunctions := by decide
+
+/-- the constant ids of a namespace page, from the generated table -/
+def constIds : List String :=
+  HtmlRefs.refs.filterMap fun r =>
+    if r.scope == "root:Namespace.j2" && r.attr == "id" then (match r.parts with | [.lit s] => some s | _ => none) else none
+
+/-- References with a constant target: every `getElementById("…")` of the templates' scripts and every `#id` selector of
+their style sheets names one of the constant ids of the namespace page, which are the ids of the model's constant part. -/
+theorem C20_constant_references_resolve :
+    (∀ l ∈ HtmlRefs.jsLookups, ∀ s, l.constId = some s → s ∈ constIds) ∧
+    (∀ c ∈ HtmlRefs.cssIds, c.1 = "root:Namespace.j2" ∧ c.2 ∈ constIds) ∧
+    idsOf (nsPageHead ++ nsPageMid) = constIds.map String.toList := by decide
+
+/-- **Every same-page reference resolves**, for every namespace tree: each `data-target="#s"`, `onclick="toggleCollapse(event,
+'s'…)"`, `aria-controls="s"`, `for="s"`, `href="#s"` and the inline script's `querySelector("#s")` on the page of a namespace
+names an `id` that the same page defines; and the root element a `toggleCollapse` call names exists too. -/
+theorem C20_same_page_references_resolve (tr : NsD) : ∀ it ∈ nsPageItems tr,
+    (∀ s, it.sameRef = some s → s ∈ idsOf (nsPageItems tr)) ∧ (∀ r, it.rootRef = some r → r ∈ idsOf (nsPageItems tr)) := by
+  intro it hit
+  refine ⟨nsPageItems_refsSelf tr it hit, fun r hr => ?_⟩
+  rcases (nsPageItems_shape tr it hit).1 r hr with rfl | rfl
+  · exact head_ids_sub tr _ (by decide)
+  · exact mid_ids_sub tr _ (by decide)
+
+/-- The entries of all namespaces of the tree and of all listed types (the targets of the sidebar links and of the links
+from other pages) are on the page, and so is the `…_sidebar` twin that `toggleCollapse` / `scrollSidebar` look up. -/
+theorem C20_listed_entries_and_sidebar_twins (tr : NsD) : ∀ s ∈ topTargets tr,
+    s ∈ idsOf (nsPageItems tr) ∧ s ++ sidebarSuffix ∈ idsOf (nsPageItems tr) :=
+  fun s hs => ⟨topTargets_sub tr s hs, sidebar_ids_sub tr _ (twins_in_sidebar tr s hs)⟩
+
+/-- **Every relative link of the output resolves**: for runs (one per root namespace) written into one output directory
+that are laid out by name (`RunOk`) and closed under reference (`Closed`: the type a link is made for has its entry — its own,
+or its service's for a request / response type — among the listed types of the run of its root namespace), every relative
+`href` on every page the generator writes (the page of every namespace at every depth, the page of every type) resolves to a
+file the generator writes, and its fragment is an `id` of that file. -/
+theorem C20_every_link_of_the_site_resolves (runs : List NsD) (hok : ∀ run ∈ runs, RunOk run) (hcl : Closed runs) :
+    ∀ f ∈ site runs, ∀ it ∈ f.2, ∀ h, it.relLink = some h → Resolves (site runs) f.1 h :=
+  site_links_resolve runs hok hcl
+
+/-- Which links a page has: the relative links of the page of namespace `tr` are exactly `"../" * depth` + `url_from_type`
+of the types `linkedNs tr` lists (nested entries with `short_name != "_"`). -/
+theorem C20_relative_links_are_type_links (tr : NsD) : ∀ it ∈ nsPageItems tr, ∀ h, it.relLink = some h →
+    ∃ ct ∈ linkedNs tr, h = typeHref tr.name ct :=
+  fun it hit => (nsPageItems_shape tr it hit).2
+
+/-! ### When ids coincide -/
+
+/-- **Exactly when two tag ids coincide**: when the dot-to-underscore flattenings of the two full names coincide and the
+versions are equal.  The version suffix is never the cause (`_<major>_<minor>` is read back from the right). -/
+theorem C20_tag_id_collision_iff (a b : CType) :
+    tagId a = tagId b ↔ nsId a.comps = nsId b.comps ∧ a.major = b.major ∧ a.minor = b.minor := tagId_eq_iff a b
+
+/-- The flattening is not injective: wherever a component `u_v` stands, the two components `u`, `v` give the same id —
+`a.b_c.D` and `a.b.c_D`, a namespace `r.b_c` and a namespace `r.b.c` (for dot-free components). -/
+theorem C20_flattening_collides (pre post : List Str) (u v : Str)
+    (h : ∀ c ∈ pre ++ u :: v :: post, '.' ∉ c) :
+    nsId (pre ++ (u ++ '_' :: v) :: post) = nsId (pre ++ u :: v :: post) ∧
+    ∀ M m hps, tagId ⟨pre ++ (u ++ '_' :: v) :: post, M, m, hps⟩ = tagId ⟨pre ++ u :: v :: post, M, m, hps⟩ := by
+  have h1 : ∀ c ∈ pre ++ (u ++ '_' :: v) :: post, '.' ∉ c := by
+    intro c hc
+    simp only [List.mem_append, List.mem_cons] at hc
+    rcases hc with hc | rfl | hc
+    · exact h c (by simp [hc])
+    · intro hm
+      simp only [List.mem_append, List.mem_cons] at hm
+      rcases hm with hm | hm | hm
+      · exact h u (by simp) hm
+      · revert hm; decide
+      · exact h v (by simp) hm
+    · exact h c (by simp [hc])
+  have e : nsId (pre ++ (u ++ '_' :: v) :: post) = nsId (pre ++ u :: v :: post) := by
+    rw [nsId_eq_join h1, nsId_eq_join h, join_underscore_collides]
+  exact ⟨e, fun M m hps => (tagId_eq_iff _ _).mpr ⟨e, rfl, rfl⟩⟩
+
+/-- …and that is the only cause: on names whose components contain no underscore the ids of namespaces are distinct and
+the tag ids of types with distinct (name, version) are distinct. -/
+theorem C20_ids_distinct_without_underscores (a b : CType)
+    (ha : ∀ c ∈ a.comps, ValidComp c ∧ '_' ∉ c) (hb : ∀ c ∈ b.comps, ValidComp c ∧ '_' ∉ c) :
+    (nsId a.comps = nsId b.comps → a.comps = b.comps) ∧
+    (tagId a = tagId b → a.comps = b.comps ∧ a.major = b.major ∧ a.minor = b.minor) := by
+  have hinj : nsId a.comps = nsId b.comps → a.comps = b.comps := by
+    intro h
+    rw [nsId_eq_join (fun c hc => validComp_noDot (ha c hc).1), nsId_eq_join (fun c hc => validComp_noDot (hb c hc).1)] at h
+    exact join_injective_of_no_underscore (fun c hc => ⟨(ha c hc).1.1, (ha c hc).2⟩) (fun c hc => ⟨(hb c hc).1.1, (hb c hc).2⟩) h
+  exact ⟨hinj, fun h => let ⟨h1, h2, h3⟩ := (tagId_eq_iff a b).mp h; ⟨hinj h1, h2, h3⟩⟩
+
+/-! ### Ids in selectors, links as URLs -/
+
+/-- Ids are used by the scripts as `#` + id selectors built by plain concatenation.  For front-end-valid names (components of
+name characters, the first one not starting with a digit) every kind of id the templates make is a CSS identifier, so the
+selector selects by id: the id of a namespace entry, of a type entry, their `_sidebar` twins, the result of `make_unique`
+on any of them, and the id of an array entry. -/
+theorem C20_ids_are_css_identifiers :
+    (∀ name : List Str, (∀ c ∈ name, ValidComp c) → FirstOk name →
+      isCssIdent (nsId name) = true ∧ isCssIdent (nsId name ++ sidebarSuffix) = true) ∧
+    (∀ t : CType, (∀ c ∈ t.comps, ValidComp c) → FirstOk t.comps →
+      isCssIdent (tagId t) = true ∧ isCssIdent (tagId t ++ sidebarSuffix) = true ∧
+      ∀ seen, isCssIdent (makeUnique seen (tagId t)).1 = true) ∧
+    (∀ es : Str, (∀ ch ∈ es, isNameOrDot ch = true ∨ ch = ' ') → (∃ c t, es = c :: t ∧ (c.isAlpha = true ∨ c = '_')) →
+      isCssIdent (tagIdArray es) = true ∧ ∀ seen, isCssIdent (makeUnique seen (tagIdArray es)).1 = true) := by
+  refine ⟨fun name hv hf => ?_, fun t hv hf => ?_, fun es hs hf => ?_⟩
+  · exact ⟨isCssIdent_of_identLike (nsId_identLike hv hf),
+      isCssIdent_of_identLike ((nsId_identLike hv hf).append sidebarSuffix_nameChars)⟩
+  · exact ⟨isCssIdent_of_identLike (tagId_identLike hv hf),
+      isCssIdent_of_identLike ((tagId_identLike hv hf).append sidebarSuffix_nameChars),
+      fun seen => isCssIdent_of_identLike (makeUnique_identLike (tagId_identLike hv hf) seen)⟩
+  · exact ⟨isCssIdent_of_identLike (tagIdArray_identLike hs hf),
+      fun seen => isCssIdent_of_identLike (makeUnique_identLike (tagIdArray_identLike hs hf) seen)⟩
+
+/-- The URL context.  The templates HTML-escape the value of `href` but nothing percent-encodes it; the links made from
+DSDL names need neither: every character of a type link and of a back link stands for itself in a URL path / fragment,
+escaping leaves the link unchanged, and there is no `:` (no scheme can be formed), `%` or `?`. -/
+theorem C20_links_are_plain_urls (ns : List Str) (t : CType) (hv : ∀ c ∈ t.comps, ValidComp c) :
+    (urlSafe (typeHref ns t) = true ∧ escape (typeHref ns t) = typeHref ns t ∧ ':' ∉ typeHref ns t ∧ '%' ∉ typeHref ns t ∧
+      '?' ∉ typeHref ns t) ∧
+    (urlSafe (backHref t) = true ∧ escape (backHref t) = backHref t ∧ ':' ∉ backHref t ∧ '%' ∉ backHref t ∧ '?' ∉ backHref t) := by
+  refine ⟨allLinkChars_props ?_, allLinkChars_props (backHref_linkChars hv)⟩
+  intro c hc
+  rcases List.mem_append.mp hc with h | h
+  · exact upPrefix_linkChars _ c h
+  · exact urlFromType_linkChars hv c h
+
+/-- Every context the templates place an expression in is one of those with a lemma above (element text and quoted
+attribute values: `C20_escaped_leaf_is_character_data`; JS string literals: `C20_name_text_stays_in_js_string`; URL
+attributes: `C20_links_are_plain_urls`); none is placed in a style sheet or a single-quoted attribute; and free text — a
+documentation comment — is only ever placed in element content.  (`decide`, whole leaf table.) -/
+theorem C20_every_context_is_covered :
+    (∀ l ∈ HtmlTpl.leaves, l.ctx = .data ∨ l.ctx = .attrDq ∨ l.ctx = .attrJs ∨ l.ctx = .script ∨ l.ctx = .attrUrl) ∧
+    (∀ l ∈ HtmlTpl.leaves, l.origin = .doc → l.ctx = .data) ∧
+    (∀ l ∈ HtmlTpl.leaves, l.ctx = .attrUrl → l.origin = .const ∨ l.origin = .name ∨ l.origin = .ident ∨ l.origin = .url) := by decide
+
+/-! ## 6. The constant markup of the templates -/
+
+/-- Every tag of the constant template text is well formed (unique attribute names, every value quoted, void elements never
+closed, only void elements self-closing, no attributes on end tags); every `&` is a complete known character reference
+or the parameter separator of a URL inside an attribute; no raw-text element contains `<!--`, the bundled assets contain no
+expression; every page template is empty (`ServiceType.j2`: the page of a service is an empty file) or starts
+`<!DOCTYPE html><html><head>` and has a `<title>` and a `<meta charset>`.  (`decide`, whole tables.) -/
+theorem C20_constant_markup_well_formed :
+    (∀ t ∈ HtmlRefs.tagFacts, t.ok = true) ∧ (∀ r ∈ HtmlRefs.charRefs, charRefOk r = true) ∧
+    (∀ r ∈ HtmlRefs.rawTexts, r.ok = true) ∧ (∀ h ∈ HtmlRefs.pageHeads, h.ok = true) ∧
+    (HtmlRefs.pageHeads.filter (·.empty)).map (·.root) = ["ServiceType.j2"] := by decide +kernel
+
 /-! ## Non-vacuity -/
 
 example : escape "</pre><script>alert(1)</script> & \"q\" 'x' -->".toList =
@@ -225,6 +384,42 @@ example : resolve (nsPagePath ["reg".toList, "udral".toList, "service".toList])
 /-- equal characters, different kind: the plain one is escaped, the Markup one is not, in either order -/
 example : escapeRun [⟨true, "<b>".toList⟩, ⟨false, "<b>".toList⟩, ⟨true, "<b>".toList⟩] =
     ["<b>".toList, "&lt;b&gt;".toList, "<b>".toList] := by decide
+
+
+/-! ### The reference inventory: a run with every kind of id collision (replayed on the real generator by the tie,
+corpus set `07_id_collisions`) -/
+
+def collisionRun : NsD :=
+  let ty (comps : List String) (M m : Nat) (attrs : List Ent) : Ent := .comp ⟨comps.map String.toList, M, m, false⟩ false attrs
+  let b11 := ty ["r", "B"] 1 1 []
+  .node ["r".toList]
+    [ty ["r", "A"] 1 0 [], ty ["r", "B"] 1 10 [], b11, ty ["r", "H"] 1 0 [b11, b11]]
+    [.node ["r".toList, "A_1_0".toList] [ty ["r", "A_1_0", "Q"] 1 0 []] [],
+     .node ["r".toList, "b".toList] [ty ["r", "b", "c_D"] 1 0 []] [],
+     .node ["r".toList, "b_c".toList] [ty ["r", "b_c", "D"] 1 0 []] [],
+     .node ["r".toList, "x".toList] [ty ["r", "x", "Y"] 1 0 []] [],
+     .node ["r".toList, "x_sidebar".toList] [ty ["r", "x_sidebar", "Z"] 1 0 []] []]
+
+/-- ids are NOT unique in general: flattened names (`r.b_c.D` / `r.b.c_D`, the type `r.A` v1.0 / the namespace `r.A_1_0`),
+the counter `make_unique` appends (`r.B` v1.1 nested, first occurrence → `r_B_1_10` = the entry of `r.B` v1.10), the
+`_sidebar` suffix (namespace `r.x_sidebar` / the sidebar twin of `r.x`). -/
+example : (idsOf (nsPageItems collisionRun)).count "r_b_c_D_1_0".toList = 2 ∧
+    (idsOf (nsPageItems collisionRun)).count "r_A_1_0".toList = 2 ∧
+    (idsOf (nsPageItems collisionRun)).count "r_B_1_10".toList = 2 ∧
+    (idsOf (nsPageItems collisionRun)).count "r_x_sidebar".toList = 2 := by decide
+
+/-- a root namespace named like a constant id of the page -/
+example : (idsOf (nsPageItems (.node ["search".toList] [] []))).count "search".toList = 2 := by decide
+
+/-- still every reference of that page has a target, and every link of the run resolves -/
+example : (siteLinkVerdicts (site [collisionRun])).length = 11 ∧ (siteLinkVerdicts (site [collisionRun])).all (·.2.2) = true := by decide
+
+/-- a nested entry has no `_sidebar` twin (the script's lookup `#r_B_1_10_sidebar` would find the twin of another entry,
+`#r_B_1_11_sidebar` nothing): an observation outside the property, only listed entries have twins -/
+example : "r_B_1_11".toList ∈ idsOf (nsPageItems collisionRun) ∧
+    "r_B_1_11_sidebar".toList ∉ idsOf (nsPageItems collisionRun) := by decide
+
+example : HtmlRefs.refs.length = 39 ∧ HtmlRefs.tagFacts.length ≥ 200 ∧ HtmlRefs.jsLookups.length ≥ 25 := by decide +kernel
 
 /-! ## Before the fixes (regression witnesses) -/
 
@@ -273,5 +468,16 @@ example : hrefFormOk ["nested"] [.ex "up", .ex "t|url_from_type"] = false := by 
 
 /-- The back link of every type page was the constant `/reg/Namespace.html`. -/
 example : hrefFormOk [] [.lit "/reg/Namespace.html"] = false := by decide
+
+/-- The inline script of a nested namespace's page selected `"#" + T.full_name`: with a dot inside this is not an id
+selector (`#r.b` = id `r` with class `b`), the lookup finds nothing and the script throws. -/
+example : (nsPageItemsBeforeFix (.node ["r".toList, "b".toList] [] [])).getLast? = some (.jsSel "r.b".toList) ∧
+    isCssIdent "r.b".toList = false ∧ "r.b".toList ∉ idsOf (nsPageItemsBeforeFix (.node ["r".toList, "b".toList] [] [])) ∧
+    (nsPageItems (.node ["r".toList, "b".toList] [] [])).getLast? = some (.jsSel "r_b".toList) ∧ isCssIdent "r_b".toList = true := by
+  decide
+
+/-- No page declared its character encoding (the row of `Namespace.j2` as the translator produced it then). -/
+example : PageHead.ok ⟨"Namespace.j2", false, true, ["html", "head", "title"], true, false⟩ = false := by decide
+
 
 end NunavutVerif.Html
